@@ -44,14 +44,30 @@ def run(repo: Repo, rep: Report, tier: str) -> None:
     dul = repo.mod("dul")
     rd = repo.func("dul", "DULServiceProvider._read_pdu_data")
     fqd = "dul.DULServiceProvider._read_pdu_data"
-    recvs = sorted([c for c in walk_no_nested(rd) if isinstance(c, ast.Call) and dotted(c.func) == "self.socket.recv"], key=lambda c: c.lineno)
+    # a helper method that is `return self.socket.recv(n)` (None on a socket error) is the same read
+    dci_ = dul.classes.get("DULServiceProvider")
+    RECV_HELPERS = set()
+    for hn_, hf_ in (dci_.methods.items() if dci_ is not None else []):
+        if hn_ == "_read_pdu_data" or len(hf_.args.args) != 2:
+            continue
+        par_ = hf_.args.args[1].arg
+        rets_ = [r_ for r_ in walk_no_nested(hf_) if isinstance(r_, ast.Return)]
+        reads_h = [c_ for c_ in walk_no_nested(hf_) if isinstance(c_, ast.Call) and dotted(c_.func) == "self.socket.recv"]
+        if reads_h and all(norm(c_.args[0]) == par_ and len(c_.args) == 1 for c_ in reads_h) and rets_ and all(r_.value is None or (isinstance(r_.value, ast.Constant) and r_.value.value is None) or (isinstance(strip_cast(r_.value), ast.Call) and strip_cast(r_.value) in reads_h) or (isinstance(r_.value, ast.Name) and any(isinstance(a_, ast.Assign) and norm(a_.targets[0]) == r_.value.id and strip_cast(a_.value) in reads_h for a_ in walk_no_nested(hf_))) for r_ in rets_):
+            RECV_HELPERS.add(f"self.{hn_}")
+
+    def is_recv(c_):
+        return isinstance(c_, ast.Call) and (dotted(c_.func) == "self.socket.recv" or dotted(c_.func) in RECV_HELPERS) and len(c_.args) == 1
+
+    recvs = sorted([c for c in walk_no_nested(rd) if is_recv(c)], key=lambda c: c.lineno)
     fields = header_fields(rd)
     for name, want in (("pdu_type", (0, 1, "big")), ("pdu_length", (2, 4, "big"))):
         got = fields.get(name)
         if got is None:
             rep.defer(f"{fqd}: how {name} is taken from the 6 header bytes was not recognised")
             continue
-        ok_f = got[0][:2] == want[:2] and (want[1] == 1 or got[0][2] == want[2]) and got[1] == "bytestream"
+        hdr_names = {"bytestream"} | {norm(a_.targets[0]) for a_ in walk_no_nested(rd) if isinstance(a_, ast.Assign) and len(a_.targets) == 1 and isinstance(a_.targets[0], ast.Name) and is_recv(strip_cast(a_.value)) and norm(strip_cast(a_.value).args[0]) == "6"}
+        ok_f = got[0][:2] == want[:2] and (want[1] == 1 or got[0][2] == want[2]) and got[1] in hdr_names
         rep.check(ok_f, "header-body", fqd, f"{name} <- bytes [{got[0][0]}:{got[0][0] + got[0][1]}] {got[0][2]}-endian of {got[1]}", f"{name} is the {'big-endian 32-bit field at offset 2' if name == 'pdu_length' else 'first byte'} of the header (PS3.8 9.3.1): any other slice mis-frames the stream (e.g. a dropped top byte wraps lengths >= 16 MiB)", mod=dul, node=got[2])
     # what the decoder is handed: abstract content of every local buffer as a sequence of recv(n) chunks
     bcfg = CFG(rd, body=body_nodoc(rd), local_exc_only=True)
@@ -64,7 +80,7 @@ def run(repo: Repo, rep: Report, tier: str) -> None:
             return chunks(e.args[0], env)
         if isinstance(e, ast.Constant) and e.value == b"":
             return ()
-        if isinstance(e, ast.Call) and dotted(e.func) == "self.socket.recv" and len(e.args) == 1:
+        if is_recv(e):
             return (("recv", norm(e.args[0])),)
         if isinstance(e, ast.Name):
             return dict(env).get(e.id)
@@ -128,6 +144,14 @@ def run(repo: Repo, rep: Report, tier: str) -> None:
     for c in recvs:
         tr_ = enclosing(c, (ast.Try,))
         ok = tr_ is not None and any("OSError" in (norm(h.type) if h.type else "") for h in tr_.handlers)
+        if not ok and dotted(c.func) in RECV_HELPERS:
+            # the read helper contains the socket error itself and answers None: the caller must turn that into Evt17
+            hf_ = dci_.methods[dotted(c.func).split(".")[-1]]
+            inner = all(enclosing(x_, (ast.Try,)) is not None and any("OSError" in (norm(h.type) if h.type else "") or h.type is None or norm(h.type) in ("Exception",) for h in enclosing(x_, (ast.Try,)).handlers) for x_ in walk_no_nested(hf_) if isinstance(x_, ast.Call) and dotted(x_.func) == "self.socket.recv")
+            st_ = enclosing(c, (ast.stmt,))
+            nm_ = norm(st_.targets[0]) if isinstance(st_, ast.Assign) and len(st_.targets) == 1 else None
+            tested = nm_ is not None and any(isinstance(i_, ast.If) and any(norm(p_).replace(" ", "") in (f"not{nm_}", f"{nm_}isNone") for p_ in (i_.test.values if isinstance(i_.test, ast.BoolOp) and isinstance(i_.test.op, ast.Or) else [i_.test])) and [norm(x_) for x_ in i_.body if not norm(x_).startswith("LOGGER")] == ["self.event_queue.put('Evt17')", "return"] for i_ in walk_no_nested(rd))
+            ok = inner and tested
         rep.check(ok, "short-is-closed", fqd, enclosing(c, (ast.stmt,)), "socket reads must be inside try/except OSError -> Evt17", mod=dul, node=c)
     check_header_guard(repo, rep, "short-is-closed")
 
@@ -249,8 +273,12 @@ def run(repo: Repo, rep: Report, tier: str) -> None:
             from ..loader import qualname
             q = qualname(c)
             ok = (m.name == "pynetdicom.transport" and q == "AssociationSocket.recv") or (m.name == "pynetdicom.dul" and q == "DULServiceProvider._read_pdu_data")
+            if not ok and m.name == "pynetdicom.dul" and f"self.{q.split('.')[-1]}" in RECV_HELPERS:
+                # a read helper of _read_pdu_data: fine as long as nobody else calls it
+                callers = {qualname(x_) for x_ in ast.walk(m.tree) if isinstance(x_, ast.Call) and dotted(x_.func) == f"self.{q.split('.')[-1]}"}
+                ok = callers <= {"DULServiceProvider._read_pdu_data"}
             rep.check(ok, "one-per-call", f"{m.name.replace('pynetdicom.', '')}.{q}", enclosing(c, (ast.stmt,)), "a second reader of the association's socket would steal bytes from the PDU stream", mod=m, node=c)
-    rep.floor("socket read sites", n_sock, 3)
+    rep.floor("socket read sites", n_sock, 2)
     check_gap_tolerance(repo, rep)
     from ..delegate import delegate as _delegate
     _delegate(repo, rep, tier, "C08", ("queue-waits", "timeout-propagation"), "gap-tolerant", "a wait for the peer's PDU gives up earlier than the configured timeout allows (a placeholder such as Timer.remaining's 1 s for 'no timeout'): a PDU that arrives in two TCP segments with a pause inside the configured limits is never answered")
@@ -442,8 +470,12 @@ def check_header_guard(repo: Repo, rep: Report, rule: str) -> None:
             for n in cfg.nodes:
                 if n.kind != "test" or not isinstance(n.ast, ast.If):
                     continue
-                tt = norm(n.ast.test).replace(" ", "")
-                if tt in (f"len({buf})!=6", f"len({buf})<6") and site and cfg.dominates(n, site[0]) and evt17_return(n.ast.body):
+                t_ = n.ast.test
+                parts_ = list(t_.values) if isinstance(t_, ast.BoolOp) and isinstance(t_.op, ast.Or) else [t_]
+                texts_ = [norm(p_).replace(" ", "") for p_ in parts_]
+                short_ = any(x_ in (f"len({buf})!=6", f"len({buf})<6", f"6>len({buf})", f"6!=len({buf})") for x_ in texts_)
+                others_ok = all(x_ in (f"len({buf})!=6", f"len({buf})<6", f"6>len({buf})", f"6!=len({buf})", f"not{buf}", f"{buf}isNone") for x_ in texts_)
+                if short_ and others_ok and site and cfg.dominates(n, site[0]) and evt17_return(n.ast.body):
                     f_succ = [m for m, l in n.succ if l == "true"]
                     if f_succ and site[0].id not in cfg.reachable(f_succ[0]):
                         ok, how = True, f"dominated by `if {norm(n.ast.test)}` -> Evt17, return"
